@@ -64,6 +64,15 @@ GOALS OF THIS ROUND, in this order of priority:
 2. False alarms: behaviour-preserving rewrites under {BW}/benign/ on which the check raised a VIOLATION: {', '.join(falsealarms) if falsealarms else '(none currently)'}.
    A check must stay silent on code for which the property holds.  Fix the machinery (model as a relation where the implementation is free,
    make AST facts robust to renames/extracted helpers/switch-vs-if), never by loosening what the property demands.
+   Most false alarms come from *syntactic* facts (go/ast pattern matches) that break when a maintainer extracts a helper, turns a switch into
+   an if chain, renames a field or replaces a loop by a library call.  Where the fact is about BEHAVIOUR of a function over a finite domain,
+   replace it by a *probe fact*: `harness facts` runs the real function on the complete finite domain (all mask triples, all pairs of a small
+   universe of identities, every byte value, every token kind x depth, a recording connection that logs which deadline setter is called ...)
+   and emits the resulting table as a Lean `def`; the theorem proves the model agrees with the whole table (`decide`).  That survives every
+   refactoring and still breaks when behaviour changes.  Keep syntactic facts only for what cannot be probed (lock discipline, closure capture,
+   goroutine starts, package-level state) and make those tolerant: follow calls into unexported helpers of the same package (one or two
+   levels), treat closures/method values passed as arguments as calls, accept if-chains and switches alike, never depend on names of locals,
+   unexported fields or helper functions.  Test with your own behaviour-preserving rewrites (at least: extract helper, switch<->if, rename).
 3. EXTEND what the framework covers for your properties: more of the anchored code inside the Lean model, more theorems (stated at full
    strength, with non-vacuity examples), a tighter tie between model and code (more regenerated facts consumed by theorems, differential
    runs over more dimensions: sizes, boundaries, fault points, interleavings, configurations, roles, framings).  Re-read the property text
